@@ -234,14 +234,7 @@ def r2_offset_discipline(ctx, sym):
     core = ctx.repo.module(TIFA_CORE)
     loc = core.func('TifaCore.locate')
     ctx.analysed_function(core, loc)
-    rets = [n for n in body_walk(loc) if isinstance(n, ast.Return)]
-    ok = len(rets) == 1 and isinstance(rets[0].value, ast.Call) and call_name(rets[0].value) == 'Location'
-    if ok:
-        a0 = rets[0].value.args[0]
-        ok = isinstance(a0, ast.BinOp) and isinstance(a0.op, ast.Add) and \
-            {norm(a0.left), norm(a0.right)} == {'node.lineno', 'self.line_offset'}
-    ctx.check(ok, 'R2', 'tifa:locate', core, loc, "TifaCore.locate does not return Location(node.lineno + line_offset)",
-              "a TIFA issue inside section 2 is reported on the section-relative line")
+    # (locate() itself is executed by the offset rule below: a node of line 5 must be located on 5 + offset)
     vis = ctx.repo.module(TIFA_VISITOR)
     from .c18 import line_offset_rule
     line_offset_rule(ctx, sym, 'R2')
